@@ -342,6 +342,9 @@ pub fn run(cert_cases: &str, import_cases: &str, out_path: &str, tier: &str) {
 			if let Some(a) = dn.as_array_mut() {
 				for (k, e) in a.iter_mut().enumerate() {
 					let kind = sval(e, "kind");
+					if e["lit"].as_bool().unwrap_or(false) {
+						continue; // a literal value of the case (hex), not a token
+					}
 					let t = if sval(c, "origin") == "openssl" { random_text("printable", cc.rng, 8).replace('?', "q") } else { random_text(&kind, cc.rng, 8) };
 					e["val"] = json!(hex(format!("{}{}", t, k).as_bytes()));
 				}
